@@ -27,6 +27,7 @@ type Profile struct {
 	Clusters       bool // shaped groups of calls (curried pairs, arity families, pending names, external test package)
 	Force          bool // Ext / Q are not only allowed but present
 	FuncParamForms bool // unnamed / blank / generator-like parameter names in function-typed arguments
+	Twin           bool // a second generated-for package with p's package name and type names
 }
 
 // FullProfile enables everything the properties name.
@@ -85,6 +86,12 @@ func Generate(t *tape.Tape, p Profile) *World {
 				}
 			}
 		}
+	}
+	if w.HasExt && p.Clusters && t.Chance(1, 4) {
+		g.sameNamedFields()
+	}
+	if p.Twin {
+		g.twin()
 	}
 	if p.Clusters && t.Chance(1, 5) {
 		g.curriedPair()
@@ -871,6 +878,9 @@ func (g *gen) deepNest() *Call {
 	m := Map(k, g.leaf())
 	cur := &Call{Plugin: "keys", Args: []Arg{p("m", m)}, NRes: 1, ResTy: Slice(k)}
 	n := 2 + t.Intn(2)
+	if t.Chance(1, 3) {
+		n += 2 + t.Intn(3) // five to eight levels: one more generation pass per level
+	}
 	last := ""
 	for i := 0; i < n; i++ {
 		pl := []string{"filter", "sort", "unique", "filter", "takewhile"}[t.Intn(5)]
